@@ -72,8 +72,8 @@ def overflow_cases(cases, st, res, prop):
 
 
 def run_C02(tier, rnd, st, res):
-    cases = list(gen_triples(rnd, per=1 if tier == 'quick' else 3))
-    cases += list(gen_random(rnd, 300 if tier == 'quick' else 3000))
+    cases = list(gen_triples(rnd, per=1 if tier == 'quick' else 6))
+    cases += list(gen_random(rnd, 300 if tier == 'quick' else 10000))
     cases = sweep(cases, st, res, ['c02'], want_c06=False)
     res.exhaustive = True
     finish(res, cases, 'all 1312 (version, level, mask) triples with seeded content (exhaustive over triples) + random make() calls; '
@@ -81,7 +81,7 @@ def run_C02(tier, rnd, st, res):
 
 
 def run_C03(tier, rnd, st, res):
-    cases = list(gen_triples(rnd, per=1 if tier == 'quick' else 2))
+    cases = list(gen_triples(rnd, per=1 if tier == 'quick' else 5))
     # every block layout with short content in a requested version (pad-only blocks) and full content
     for v in ALL_VERSIONS:
         for e in levels_of(v):
@@ -263,7 +263,7 @@ def run_C06(tier, rnd, st, res):
             mode = rnd.choice(modes_of(v))
             cases.append(Case(content_for(rnd, mode, rnd.randint(1, max(1, max_chars(v, e, mode)))), kw, 'requested-mask'))
     # automatic masks: many small symbols, every version at least once
-    n_small = 500 if tier == 'quick' else 6000
+    n_small = 500 if tier == 'quick' else 25000
     for _ in range(n_small):
         mode = rnd.choice([1, 2, 4, 4])
         kw = {}
@@ -282,7 +282,7 @@ def run_C06(tier, rnd, st, res):
         mode = rnd.choice(modes_of(v))
         cases.append(Case(content_for(rnd, mode, rnd.randint(1, max(1, max_chars(v, e, mode)))), kw, 'auto-version'))
     # contents rich in 1011101 runs (byte 0x5d = 01011101, 0xba, 0x17 0x45 ...)
-    for _ in range(60 if tier == 'quick' else 1500):
+    for _ in range(60 if tier == 'quick' else 6000):
         n = rnd.randint(4, 60)
         b = bytes(rnd.choice([0x5d, 0xba, 0x17, 0x45, 0xd1, 0x74, 0x2e, 0x8b, 0xa2, 0xe8, 0x00, 0xff]) for _ in range(n))
         cases.append(Case(b, dict(mode='byte', micro=False), 'n3-rich'))
